@@ -257,6 +257,11 @@ func NewCase(g *Gen, id int, forceValidate *bool) *Case {
 	if forceValidate != nil {
 		validate = *forceValidate
 	}
+	if g.manyNil && forceValidate == nil {
+		validate = true
+		g.longNil = true
+		defer func() { g.longNil = false }()
+	}
 	if g.P.NilBias {
 		// prefer schemas some input of which the implementation accepts
 		for try := 0; try < 8 && !g.acceptable(n, validate); try++ {
